@@ -132,6 +132,7 @@ LIB_MODE_TEXT = {
     "num": "fmt_ulong/fmt_uint0/scan_ulong round trips on boundary values, scan_ulong/scan_8long on every digit string <=3 followed by every byte",
     "map": "constmap on all 256 subsets of 8 keys (empty key, case twins, colon data) x 17 probes, split on/off",
     "cdb": "cdb_seek on a 9-record database (duplicate and high-byte keys): intact, one failing read at every call, every truncation",
+    "seek": "seek_set/seek_cur/seek_end/seek_trunc at offsets around 2^31 and 2^32 on a sparse file",
     "ctl": "control_readfile/readline/readint/rldef on every short file body, absent and unreadable files, with/without control/me",
 }
 
@@ -144,7 +145,10 @@ def lib_conformance(res, rd, src, modes, tier, asan):
     exe = compile_harness(src, os.path.join(rd, "c00lib"), [os.path.join(VERIF, "seq/c00_lib.c")], link_target="qmail-send", extra_objs=extra, asan=asan)
     jobs = []
     for m in modes:
-        if m == "ctl":
+        if m == "seek":
+            d = os.path.join(rd, "libseek"); os.makedirs(d, exist_ok=True)
+            jobs.append(("%s seek %s" % (exe, d), "library: seek"))
+        elif m == "ctl":
             d = os.path.join(rd, "libctl"); os.makedirs(d, exist_ok=True)
             jobs.append(("%s ctl %s %d" % (exe, d, 4 if tier == "quick" else 5), "library: control files"))
         else:
